@@ -395,7 +395,9 @@ func checkMain(args []string) int {
 	if !*quiet {
 		fmt.Printf("%s: %d obligations, %d discharged, %d violations, %.1fs (load %.1fs, solver %dms)\n", id, nObl, nDis, nViol, wall, w.LoadS, solverMs)
 	}
-	os.RemoveAll(workDir())
+	if os.Getenv("VERIF_KEEP") == "" {
+		os.RemoveAll(workDir())
+	}
 	if nViol > 0 {
 		return 1
 	}
